@@ -547,5 +547,6 @@ def run(ctx):
     corpus(ctx)
     n = ctx.n(7, 80)
     for it in range(n):
+        core.release_jax(8)
         cfg, d, field, u0s, t0, hs = gen_case(ctx, it, ctx.quick)
         run_case(ctx, cfg, d, field, u0s, t0, hs, ctx.quick)
